@@ -46,11 +46,20 @@ fn serial(code: u64) -> SerialConsistency {
 /// Expands the value list description into cells (for the record) and builds SerializedValues.
 fn values_of(v: &Value) -> (Vec<Value>, Result<SerializedValues, String>) {
     let blob = ColumnType::Native(NativeType::Blob);
-    let cells: Vec<Value> = if v.is_array() && v.as_array().unwrap().len() == 2 && v[0] == "nulls" {
+    let cells: Vec<Value> = if v.is_array() && v.as_array().unwrap().len() == 2 && (v[0] == "nulls" || v[0] == "nulls_row") {
         (0..v[1].as_u64().unwrap()).map(|_| json!({"k":"null"})).collect()
     } else {
         v.as_array().unwrap().clone()
     };
+    if v.is_array() && v[0] == "nulls_row" {
+        // the other way a value list comes to be: a whole row serialised at once (what sessions do with the caller's values)
+        use scylla_cql::frame::response::result::{ColumnSpec, TableSpec};
+        use scylla_cql::serialize::row::RowSerializationContext;
+        let specs: Vec<ColumnSpec> = (0..cells.len()).map(|i| ColumnSpec::borrowed(if i % 2 == 0 { "a" } else { "b" }, blob.clone(), TableSpec::borrowed("ks", "t"))).collect();
+        let row: Vec<Option<Vec<u8>>> = vec![None; cells.len()];
+        let r = SerializedValues::from_serializable(&RowSerializationContext::from_specs(&specs), &row);
+        return (cells, r.map_err(|e| e.to_string()));
+    }
     let mut sv = SerializedValues::new();
     for c in &cells {
         let r = match c["k"].as_str().unwrap() {
